@@ -16,7 +16,7 @@ from harness.props import compare_common as cc
 MANIFEST = dict(
     category="proof",
     technique="Lean 4 theorems over a hand-written model of the compare engine + differential correspondence with the implementation",
-    text="Lean theorems for EVERY option record, flag record and both entry points, on trees with unique dictionary keys: C09_one_line_per_entry (differences has exactly one line per not_equal/self_unique/other_unique/difftypes entry); C09_not_equal_faithful (the path of every not-equal entry resolves in the left operand with the left index of [i]<>[j] and in the right operand with the right index to exactly the reported original values) and C09_not_equal_differ (they really differ; without transform); C09_difftypes_faithful (the left value is at the reported path on the left, the right value at the same path on the right - right index of [i]<>[j] -, the types differ; both entry points since fix C09-b, C09_clash_keyed_example); C09_unique_faithful (present on its side) and C09_self/other_unique_absent (the parent resolves on the other side, the key is missing there / the index lies beyond the other list in direct mode), C09_keyed_no_common_key_left (after the keyed pairing no key remains unmatched on both sides); C09_swap_partial - for direct_compare without transform, swapping the operands swaps the unique lists and mirrors each pair (as multisets) and keeps the line count. C09_swap_keyed (PROVED, Proofs/CompareSwapKeyed.lean) - the same for the keyed/default entry point compare(): every composite key, EVERY flag record (since fix C09-b a type clash found inside a keyed list is reported at prefix[i]<>[j] and mirrors like every other entry), no transform, exclude_xpaths/compare_only that do not distinguish [i]<>[j] from [j]<>[i] (C09_swap_keyed_default_filters: true without path filters), unique dictionary keys and NO assumption on the item keys (repeated composite keys allowed: the n-th item with key K on one side pairs with the n-th item with key K on the other side whichever side drives the loop): b.compare(a) has the two unique lists exchanged and every pair and every type clash mirrored ([i]<>[j] becomes [j]<>[i]) as multisets of entries, same number of lines; C09_swap (the statement first kept as C09_swap_stmt, with its now superfluous hypotheses on the item keys and on the types flag) follows; C09_swap_keyed_all_flags - the same as a relation (SwV); C09_swap_all - both entry points, every flag record, in one statement; C09_swap_keyed_verdict - the verdict of compare() does not depend on the order of the operands. KEPT AND REFUTED: C09_swap_full_stmt (both entry points, every option record, transform and path filters included) - C09_swap_full_refuted. Counter-example theorems: C09_swap_transform_cex (a type-changing transform), C09_swap_keyed_exclude_cex (a pattern naming [0]<>[1]); examples of the fixed finding C09-b: C09_clash_keyed_example, C09_swap_keyed_types_example. Operand purity is immediate in a pure model and is therefore checked on the implementation (deep copies before/after), not claimed as a theorem. FRAME (Proofs/CompareFrame.lean; what the result depends on: the class tags n0dict/n0list vs dict/list below the roots): C09_tags_irrelevant_stmt (the result does not depend on them) is kept and REFUTED (C09_tags_irrelevant_refuted) - they matter in exactly three places: C09_frame_clash_cex (an n0dict against a plain dict under the same key is a type clash), C09_frame_attr_cex (direct_compare on a plain list nested in a list: AttributeError), C09_frame_type_cex (compare on a plain dict that is a list item: TypeError); C09_frame - for transform functions that do not look at containers (LeafTransform: identity on containers, scalars to scalars, None to a scalar or None; in particular without transform), every other option and flag record and both entry points, if below the roots all dictionaries carry one tag and all lists one tag, the run on (a, b) and the run on the recursively converted trees return the same result up to conversion of the shown values and raise the same exception, unless the first run stops with one of the two isinstance exceptions in a mode that meets a plain container of the kind it checks; C09_frame_exact / C09_frame_loaded / C09_frame_direct / C09_frame_verdict - for compare() on trees as n0dict(json_text) builds them (n0dicts everywhere, plain lists) and for direct_compare on trees with n0lists and plain dicts the run IS the run on the converted trees, so the theorems stated for recursively converted trees apply to them. The model (lean/N0Verif/Model/Compare.lean) follows n0dict.compare/direct_compare, n0list.compare/direct_compare, xpath_match, generate_composite_keys, update_extend and the flag machine branch by branch for the code WITH fix patches C07-a, C08-a, C09-a, C07-b, C07-c, C09-b, C10-a applied; it is compared with the implementation on generated pairs of trees (verdict, entry sets with rendered paths and values, number of prose lines, exception class) and the statement itself is executed on the implementation with Python-side oracles.",
+    text="Lean theorems for EVERY option record, flag record and both entry points, on trees with unique dictionary keys: C09_one_line_per_entry (differences has exactly one line per not_equal/self_unique/other_unique/difftypes entry); C09_not_equal_faithful (the path of every not-equal entry resolves in the left operand with the left index of [i]<>[j] and in the right operand with the right index to exactly the reported original values) and C09_not_equal_differ (they really differ; without transform); C09_difftypes_faithful (the left value is at the reported path on the left, the right value at the same path on the right - right index of [i]<>[j] -, the types differ; both entry points since fix C09-b, C09_clash_keyed_example); C09_unique_faithful (present on its side) and C09_self/other_unique_absent (the parent resolves on the other side, the key is missing there / the index lies beyond the other list in direct mode), C09_keyed_no_common_key_left (after the keyed pairing no key remains unmatched on both sides); C09_swap_partial - for direct_compare without transform, swapping the operands swaps the unique lists and mirrors each pair (as multisets) and keeps the line count. C09_swap_keyed (PROVED, Proofs/CompareSwapKeyed.lean) - the same for the keyed/default entry point compare(): every composite key, EVERY flag record (since fix C09-b a type clash found inside a keyed list is reported at prefix[i]<>[j] and mirrors like every other entry), no transform, exclude_xpaths/compare_only that do not distinguish [i]<>[j] from [j]<>[i] (C09_swap_keyed_default_filters: true without path filters), unique dictionary keys and NO assumption on the item keys (repeated composite keys allowed: the n-th item with key K on one side pairs with the n-th item with key K on the other side whichever side drives the loop): b.compare(a) has the two unique lists exchanged and every pair and every type clash mirrored ([i]<>[j] becomes [j]<>[i]) as multisets of entries, same number of lines; C09_swap (the statement first kept as C09_swap_stmt, with its now superfluous hypotheses on the item keys and on the types flag) follows; C09_swap_keyed_all_flags - the same as a relation (SwV); C09_swap_all - both entry points, every flag record, in one statement; C09_swap_keyed_verdict - the verdict of compare() does not depend on the order of the operands. KEPT AND REFUTED: C09_swap_full_stmt (both entry points, every option record, transform and path filters included) - C09_swap_full_refuted. Counter-example theorems: C09_swap_transform_cex (a type-changing transform), C09_swap_keyed_exclude_cex (a pattern naming [0]<>[1]); examples of the fixed finding C09-b: C09_clash_keyed_example, C09_swap_keyed_types_example. Operand purity is immediate in a pure model and is therefore checked on the implementation (deep copies before/after), not claimed as a theorem. FRAME (Proofs/CompareFrame.lean; what the result depends on: the class tags n0dict/n0list vs dict/list below the roots): C09_tags_irrelevant_stmt (the result does not depend on them) is kept and REFUTED (C09_tags_irrelevant_refuted) - they matter in exactly three places: C09_frame_clash_cex (an n0dict against a plain dict under the same key is a type clash), C09_frame_attr_cex (direct_compare on a plain list nested in a list: AttributeError), C09_frame_type_cex (compare on a plain dict that is a list item: TypeError); C09_frame - for transform functions that do not look at containers (LeafTransform: identity on containers, scalars to scalars, None to a scalar or None; in particular without transform), every other option and flag record and both entry points, if below the roots all dictionaries carry one tag and all lists one tag, the run on (a, b) and the run on the recursively converted trees return the same result up to conversion of the shown values and raise the same exception, unless the first run stops with one of the two isinstance exceptions in a mode that meets a plain container of the kind it checks; C09_frame_exact / C09_frame_loaded / C09_frame_direct / C09_frame_verdict - for compare() on trees as n0dict(json_text) builds them (n0dicts everywhere, plain lists) and for direct_compare on trees with n0lists and plain dicts the run IS the run on the converted trees, so the theorems stated for recursively converted trees apply to them. The model (lean/N0Verif/Model/Compare.lean) follows n0dict.compare/direct_compare, n0list.compare/direct_compare, xpath_match, generate_composite_keys, update_extend and the flag machine branch by branch for the code WITH fix patches C07-a, C08-a, C09-a, C07-b, C07-c, C09-b, C10-a, C07-d, C08-b, C10-c applied; it is compared with the implementation on generated pairs of trees (verdict, entry sets with rendered paths and values, number of prose lines, exception class) and the statement itself is executed on the implementation with Python-side oracles.",
     note="Paths are structured in the model; their rendering is compared with the strings the implementation reports. Dictionary keys are plain names without '/', '[', ']', '<', '>'.",
     design_ref='5/C09',
 )
@@ -234,6 +234,6 @@ def run(ctx):
     ctx.extra["assumptions"] = [
         "trees are converted recursively; dictionary keys are plain names without '/', '[', ']', '<', '>'",
         "operand purity is observed on deep copies (canonical encodings before/after); values are immutable in the model",
-        "the model follows the code with fix patches C07-a, C08-a, C09-a, C07-b, C07-c, C09-b, C10-a applied",
+        "the model follows the code with fix patches C07-a, C08-a, C09-a, C07-b, C07-c, C09-b, C10-a, C07-d, C08-b, C10-c applied",
     ]
     ctx.extra["trusted_base"] = ["path resolver parse_path/resolve of harness/props/compare_common.py"]
